@@ -27,6 +27,12 @@ type LoopClause struct {
 	N     int
 }
 
+type UnrollIn struct {
+	Fn  string
+	Ord int
+	N   int
+}
+
 type Ghost struct {
 	Name string
 	Type string
@@ -48,6 +54,7 @@ type Contract struct {
 	Ifaces   map[string]string
 	MayNil   []string
 	Inline   bool
+	UnrollIn []UnrollIn // loops of expanded callees that are unrolled (callee display-name suffix, loop ordinal, bound)
 	PreferInt bool // verify in mathematical-integer mode first (callee contracts are mode-agnostic then)
 	Expand   []string // callees (display-name suffixes) whose body is expanded in this function although they have a contract
 	Trusted  bool
@@ -69,7 +76,7 @@ type Contract struct {
 	Impls    []string        // keys of the implementing methods
 }
 
-var clauseHead = regexp.MustCompile(`^(prefer-int|expand|abstract|keys|check|mode|ghost|requires|ensures|modifies|loop|bound|iface|maynil|inline|trusted|panics-if|nosafety|maxpaths|alias|decreases)\b(.*)$`)
+var clauseHead = regexp.MustCompile(`^(unroll-in|prefer-int|expand|abstract|keys|check|mode|ghost|requires|ensures|modifies|loop|bound|iface|maynil|inline|trusted|panics-if|nosafety|maxpaths|alias|decreases)\b(.*)$`)
 var tagRe = regexp.MustCompile(`^\s*\[([^\]]+)\]\s*(.*)$`)
 
 // ParseContractFile parses the //@ lines of one file. pkgPath is the import path of its package.
@@ -336,6 +343,17 @@ func (c *Contract) addClause(head, rest, where string) error {
 		c.MayNil = append(c.MayNil, strings.Fields(rest)...)
 	case "inline":
 		c.Inline = true
+	case "unroll-in":
+		f := strings.Fields(rest)
+		if len(f) != 3 {
+			return fmt.Errorf("%s: unroll-in wants `function-suffix loop-ordinal bound`", where)
+		}
+		ord, err1 := strconv.Atoi(f[1])
+		n, err2 := strconv.Atoi(f[2])
+		if err1 != nil || err2 != nil {
+			return fmt.Errorf("%s: unroll-in wants numbers", where)
+		}
+		c.UnrollIn = append(c.UnrollIn, UnrollIn{Fn: f[0], Ord: ord, N: n})
 	case "prefer-int":
 		c.PreferInt = true
 	case "expand":
